@@ -1102,7 +1102,8 @@ decl(struct scope *s, struct func *f)
 						error(&tok.loc, "parameter of function '%s' has incomplete type", name);
 				}
 				/* re-open scope from function declarator */
-				assert(funcscope);
+				if (!funcscope)
+					error(&tok.loc, "function definition must have a function declarator");
 				s = funcscope;
 				f = mkfunc(d, name, t, s);
 				stmt(f, s);
